@@ -119,6 +119,7 @@ class Driver:
             self.region.message_handler.subscribe(name, self._handler("reg"))
         self.sess.message_handler.subscribe("*", self._handler("sessAll"))
         self.region.message_handler.subscribe("*", self._handler("regAll"))
+        self.extra = {"sess": [], "reg": []}   # further subscribers: [kind, calls-in-this-step counter cell, wait_for future]
         self.futs = []        # [(real id, future)] for every send_reliable
         self.issued = []      # real IDs of fresh (not resent) datagrams in emission order
         self.cum = {h: {} for h in HANDLERS}   # handler -> {(pid, rel): calls}
@@ -130,6 +131,46 @@ class Driver:
         def handler(msg):
             lst.append(msg.packet_id)
         return handler
+
+    # --- further subscribers of the data message, registered after the permanent ones ---------
+    def _subscribe_extra(self, level, kind):
+        mh = self.sess.message_handler if level == "sess" else self.region.message_handler
+        cell = [0]
+        fut = None
+        if kind == "waitfor":
+            fut = mh.wait_for(("ChatFromSimulator",), take=False)
+        else:
+            def handler(msg, _cell=cell, _ret=(kind == "retTrue")):
+                _cell[0] += 1
+                return _ret
+            if kind == "once":
+                mh.register("ChatFromSimulator").subscribe(handler, one_shot=True)
+            else:
+                mh.subscribe("ChatFromSimulator", handler)
+        self.extra[level].append([kind, cell, fut, False])
+
+    def _extra_calls(self):
+        dyn = {}
+        for level, lst in self.extra.items():
+            row = []
+            for ent in lst:
+                kind, cell, fut, was_done = ent
+                if fut is not None:
+                    n = 1 if (fut.done() and not was_done) else 0
+                    ent[3] = fut.done()
+                else:
+                    n = cell[0]
+                    cell[0] = 0
+                row.append(n)
+            dyn[level] = row
+        return dyn
+
+    async def subscribe(self, level, kind):
+        st, r = common.impl_call(self._subscribe_extra, level, kind)
+        ev = {"ev": "Sub", "level": level, "kind": kind}
+        if st != "ok":
+            ev["raised"] = r
+        return await self._observe(ev)
 
     # --- building peer datagrams -----------------------------------------------------------
     def _datagram(self, pid, rel, acks, form):
@@ -182,7 +223,10 @@ class Driver:
                 if pid is not None:
                     self.cum[h][(pid, rel)] = self.cum[h].get((pid, rel), 0) + dl[h]
             dl["other"] = other
+            dl["dyn"] = self._extra_calls()
             ev["dl"] = dl
+        else:
+            self._extra_calls()
         for h in HANDLERS:
             self.calls[h].clear()
         fut = []
@@ -205,7 +249,7 @@ class Driver:
     async def recv(self, pid, rel, acks, form):
         data = self._datagram(pid, rel, acks, form)
         st, r = common.impl_call(self.proto.datagram_received, data, PEER)
-        ev = {"ev": "Recv", "p": pid, "rel": bool(rel), "acks": list(acks), "form": form}
+        ev = {"ev": "Recv", "p": pid, "rel": bool(rel), "acks": list(acks), "form": form, "match": form == "app"}
         if st != "ok":
             ev["raised"] = r
         return await self._observe(ev, pid, bool(rel), with_dl=True)
@@ -289,6 +333,8 @@ async def _do(drv: Driver, act, model_ids):
         return await drv.send_unrel()
     if n == "Tick":
         return await drv.tick(act["d"])
+    if n == "Subscribe":
+        return await drv.subscribe(act["l"], act["k"])
     raise MachineryError("unknown action %r" % (act,))
 
 
@@ -323,12 +369,19 @@ def _compare(drv: Driver, act, obs, ev):
                 bad.append((("dup-dispatch/" if got > exp else "missing-dispatch/") + h, exp, got))
         if ev["dl"]["other"]:
             bad.append(("subscriber called for another packet", 0, ev["dl"]["other"]))
+        for lvl in ("sess", "reg"):
+            exp_calls, got_calls, kinds = out["calls"][lvl], ev["dl"]["dyn"][lvl], [x["k"] for x in obs["subs"][lvl]]
+            if len(exp_calls) != len(got_calls):
+                raise MachineryError("driver and model disagree on the number of extra subscribers")
+            for i, (x, y) in enumerate(zip(exp_calls, got_calls)):
+                if x != y:
+                    bad.append((("dup-dispatch/" if y > x else "missing-dispatch/") + lvl + "-extra-" + kinds[i], x, y))
     else:
         exp_tx = sorted((real(t["id"]), t["rel"], t["resent"]) for t in out["tx"])
         got_tx = sorted((t["id"], t["rel"], t["resent"]) for t in tx)
         if exp_tx != got_tx:
             clause = {"SendRel": "send: one reliable datagram", "SendUnrel": "send: one unreliable datagram",
-                      "Tick": "resend exactly the due pending sends"}[n]
+                      "Tick": "resend exactly the due pending sends", "Subscribe": "subscribe: nothing emitted"}[n]
             bad.append((clause, exp_tx, got_tx))
     # futures of all reliable sends
     exp_state = {}
@@ -396,7 +449,7 @@ def _strip(evs):
     """Trace records: only what ClientCircuit_Trace reads."""
     res = []
     for ev in evs:
-        r = {k: v for k, v in ev.items() if k in ("ev", "p", "rel", "acks", "d", "fut")}
+        r = {k: v for k, v in ev.items() if k in ("ev", "p", "rel", "acks", "d", "fut", "match", "level", "kind")}
         r["tx"] = [{"id": t["id"], "rel": t["rel"], "resent": t["resent"], "acked": t["acked"], "peer": t["peer"]}
                    for t in ev["tx"]]
         if "dl" in ev:
@@ -408,16 +461,18 @@ def _strip(evs):
 
 def _mc_cfg(consts, spec, check=True, forms=False):
     c = dict(consts)
-    txt = "SPECIFICATION %s\nCONSTANTS Budget = %d Every = %d\n" % (spec, c.pop("Budget"), c.pop("Every"))
+    txt = "SPECIFICATION %s\nCONSTANTS Budget = %d Every = %d IterateLive = FALSE\n" % (spec, c.pop("Budget"), c.pop("Every"))
+    c.setdefault("MaxSubs", 0)
+    c.setdefault("SubKinds", "{}")
     txt += "CONSTANTS " + " ".join("%s = %s" % kv for kv in c.items()) + "\n"
     if forms:
         txt += 'CONSTANTS Forms = {"app", "pa", "mix"}\n'
     txt += "CONSTRAINT Bound\nVIEW View\n"
     if check:
-        for i in ("TypeOK", "AckEveryReceipt", "DispatchAtMostOnce", "FirstCopyDispatched", "UnreliableAlwaysDelivered",
+        for i in ("TypeOK", "AckEveryReceipt", "DispatchAtMostOnce", "FirstCopyDispatched", "UnreliableAlwaysDelivered", "DispatchReachesAll",
                   "Partition", "DoneIffAcked", "FailedIffSpent", "IdsIncreasing", "LastIsLast"):
             txt += "INVARIANT %s\n" % i
-        txt += "PROPERTY Final\n"
+        txt += "PROPERTY Final\nPROPERTY OneShotOnce\n"
     return txt
 
 
@@ -477,7 +532,7 @@ def _b1(chk: Check, consts, label, sample_every):
         a = e["act"]
         o = e["obs"]["out"]
         if (a["n"] == "Recv" and a["rel"] and not o["deliver"]) or o["completed"] or o["failed"] or \
-                any(t["resent"] for t in o["tx"]):
+                any(t["resent"] for t in o["tx"]) or any(sum(c) >= 2 for c in o["calls"].values()):
             chk.nontrivial(("edge", label, e["_s"], common.skey(a)))
     e = g.edges[min(len(g.edges) - 1, 4321)]
     chk.sample({"binding": "B1 edge replay " + label, "history": [p["act"] for p in g.path_to(e["_s"])] + [e["act"]],
@@ -497,6 +552,7 @@ async def _walk(client, rng, length, every_ms):
     my_rel = []      # IDs the endpoint used for reliable sends (read off its datagrams)
     p_dup = rng.choice([0.2, 0.5, 0.8])
     p_tick = rng.choice([0.1, 0.3, 0.6])
+    p_sub = rng.choice([0.0, 0.05, 0.12])
     ticks = [1, 500, every_ms // 2, every_ms - 1, every_ms, every_ms + 1, every_ms * 3]
 
     def pick_acks():
@@ -523,6 +579,11 @@ async def _walk(client, rng, length, every_ms):
             ev = await drv.send_unrel()
         elif c < p_tick + 0.19:
             ev = await drv.stray(pick_acks())
+        elif c < p_tick + 0.19 + p_sub:
+            level = rng.choice(["sess", "reg"])
+            if len(drv.extra[level]) >= 12:
+                continue
+            ev = await drv.subscribe(level, rng.choice(["perm", "once", "retTrue", "waitfor", "once", "waitfor"]))
         else:
             rel = rng.random() < 0.65
             pool = rel_pids if rel else unrel_pids
@@ -564,7 +625,7 @@ def _walks_chunk(args):
 
 
 def _b2(chk: Check, traces, label, budget, every_ms):
-    cfg = ("SPECIFICATION TraceSpec\nCONSTANTS Budget = %d Every = %d Window = 1000\n"
+    cfg = ("SPECIFICATION TraceSpec\nCONSTANTS Budget = %d Every = %d Window = 1000 IterateLive = FALSE\n"
            "POSTCONDITION TraceAccepted\nCHECK_DEADLOCK FALSE\n" % (budget, every_ms))
     acc, rej, results = common.validate_traces("ClientCircuit_Trace", cfg, traces, chk.scratch, shards=8 if chk.tier == "quick" else common.NCPU,
                                                tag="c19" + label)
@@ -597,7 +658,9 @@ def run(chk: Check):
     chk.cov["rule"] = ("B1: every edge of the exhaustively enumerated bounded model (all interleavings of peer packets "
                        "reliable/unreliable with duplication and reordering, acks in appended/PacketAck/mixed form for "
                        "pending/completed/foreign/not-yet-issued IDs, stray datagrams, reliable and unreliable sends, "
-                       "clock steps) replayed into a fresh real endpoint with the full observation compared; "
+                       "clock steps; plus a configuration where permanent / one_shot / returns-True / wait_for() subscribers are "
+                       "registered at session and region level in every order) replayed into a fresh real endpoint with the "
+                       "full observation compared (calls of every subscriber ever registered); "
                        "non-trivial = edges with a suppressed duplicate, a completion, a retransmission or a failure. "
                        "B2: recorded histories re-validated by TLC; non-trivial = walks with a retransmission and a "
                        "suppressed duplicate.")
@@ -607,7 +670,9 @@ def run(chk: Check):
         "the event loop is pumped between datagrams; clock is virtual (module attribute dt of message.circuit)",
         "Tick = clock advance followed by Circuit.resend_unacked() (what HippoClient._attempt_resends calls)",
         "retry budget %d and resend period %d ms are read from the code, not fixed by the property" % (budget, every),
-        "subscribers are plain callables subscribed by name and by '*' at session and region level",
+        "permanent subscribers are plain callables subscribed by name and by '*' at session and region level; further "
+        "subscribers (permanent, one_shot=True, returning True, MessageHandler.wait_for(take=False)) subscribe to the data "
+        "message name after them, so a PacketAck message does not match them; a wait_for() waiter is observed through its future",
     ]
     half = every // 2
     base = dict(Budget=budget, Every=every, MaxAcks=2, Ticks="{%d, %d}" % (half, every))
@@ -625,6 +690,10 @@ def run(chk: Check):
     # timer-heavy, unbounded depth: budget exhaustion, retransmission counts
     traces += _b1(chk, dict(base, RelPids="{}", UnrelPids="{1}", MaxRcv=1, MaxSends=2, MaxUnrel=0, MaxAcks=1, Depth=0),
                   "timer", 7)
+    # subscribers that remove themselves during dispatch, registered before / after permanent ones, both levels
+    traces += _b1(chk, dict(base, RelPids="{1}", UnrelPids="{2}", MaxRcv=2, MaxSends=0, MaxUnrel=0, MaxAcks=0, Ticks="{}",
+                            MaxSubs=2, SubKinds='{"perm", "once", "retTrue", "waitfor"}', Depth=5 if quick else 6),
+                  "subscribers", 61 if quick else 211)
     if not quick:
         traces += _b1(chk, dict(base, RelPids="{1}", UnrelPids="{}", MaxRcv=3, MaxSends=1, MaxUnrel=1,
                                 Ticks="{%d, %d, %d}" % (every - 1, every, 1), Depth=9), "edge-times", 211)
